@@ -138,7 +138,7 @@ InitState(lim, dv) ==
     objs   |-> 0,
     rtypes |-> {},            \* set of <<name, arity>>
     rtname |-> "",
-    mkid   |-> "",
+    mkid   |-> <<>>,          \* ids of the markers whose object is not complete yet (innermost last)
     marked |-> {},            \* set of <<id, datatype>>
     fwd    |-> {},            \* set of <<id, mask>>   mask \in {"any","keyable"}
     refs   |-> 0,
@@ -210,8 +210,20 @@ MarkedType(s, id) == (CHOOSE p \in s.marked : p[1] = id)[2]
 IsFwd(s, id) == \E p \in s.fwd : p[1] = id
 FwdMask(s, id) == (CHOOSE p \in s.fwd : p[1] = id)[2]
 
-MarkObject(s, dt) ==
-  LET id == s.mkid IN
+(* The code kept one markerID field, so a marker inside a marked container *)
+(* overwrote the outer id (deviation nested-marker-id-overwritten).         *)
+PushMarker(s, id) ==
+  IF Dev(s, "nested-marker-id-overwritten")
+  THEN (IF s.mkid # <<>> THEN UseDev([s EXCEPT !.mkid = <<id>>], "nested-marker-id-overwritten")
+        ELSE [s EXCEPT !.mkid = <<id>>])
+  ELSE [s EXCEPT !.mkid = Append(@, id)]
+PopMarker(s) ==
+  IF Dev(s, "nested-marker-id-overwritten") THEN s
+  ELSE [s EXCEPT !.mkid = SubSeq(@, 1, Len(@) - 1)]
+
+MarkObject(s0, dt) ==
+  LET id == s0.mkid[Len(s0.mkid)]
+      s  == PopMarker(s0) IN
   IF s.refs + 1 > s.lim.refs THEN Fail(s, "limit")
   ELSE IF IsMarked(s, id) THEN Fail(s, "marker")
   ELSE LET s1 == [s EXCEPT !.refs = @ + 1, !.marked = @ \cup {<<id, dt>>}] IN
@@ -408,7 +420,7 @@ DoPlain(r, m, s, e) ==
                                            (CHOOSE p \in s.rtypes : p[1] = e.id)[2])
                        ELSE Fail(s, "structure")
     [] m = "end"    -> EndContainer(s, r # "RecordType")
-    [] m = "marker" -> LET s1 == [s EXCEPT !.mkid = e.id] IN
+    [] m = "marker" -> LET s1 == PushMarker(s, e.id) IN
                        StackRule(s1, IF r = "MapKey" THEN "MarkedKeyable" ELSE "MarkedAny",
                                  "", NoCount)
     [] m = "ref"    -> Then(LocalReferenceObject(s, e.id, IF r = "MapKey" THEN "keyable" ELSE "any"),
